@@ -34,7 +34,7 @@ ASSUMPTIONS = ["deletions from inside act remove the acting agent itself or an a
                "population changes happen between steps and in the two round hooks only, never inside act",
                "order is checked only between events sent to the same agent in the same step and handled in the same step"]
 FAULT_KINDS = ["handler_raised", "agent_deleted_with_events_in_flight", "reconfiguration_with_events_in_flight", "send_to_dead_id", "delayed_event"]
-PROBES = ["event_without_handler", "model_reset_with_events_in_flight", "deletion_inside_act", "sent_from_round_hook", "broadcast_event", "event_to_deleted_agent", "event_after_ids_shifted", "delayed_odd_wait", "non_multiple_delay", "two_events_same_agent_same_step",
+PROBES = ["equal_events_sent_several_times", "event_without_handler", "model_reset_with_events_in_flight", "deletion_inside_act", "sent_from_round_hook", "broadcast_event", "event_to_deleted_agent", "event_after_ids_shifted", "delayed_odd_wait", "non_multiple_delay", "two_events_same_agent_same_step",
           "delete_in_begin_hook_after_distribution", "decimal_dt_delay"]
 EXHAUSTIVE = {"quick": False, "thorough": False}
 
@@ -102,6 +102,8 @@ def generate(spec):
                     frm, delay = sends[-1]["from"], sends[-1]["delay"] if sends[-1]["k"] == k else delay
             sends.append({"k": k, "from": frm, "uid": uid, "to": to, "delay": delay,
                           "name": rng.choice(["ping", "pong", "ping", "pong", "noise"])})   # nobody has a handler for "noise"
+            if rng.random() < 0.06:
+                sends[-1]["copies"] = rng.choice([2, 2, 3])       # the same message sent several times: equal events are still separate events
     # deletions from inside act (the acting agent itself, or one created before it: both have already
     # handled their events and acted in this step)
     acts = []
@@ -266,8 +268,16 @@ def execute(case):
     any_delayed = False
     n_dead = 0
     noise = {s_["uid"] for s_ in case["sends"] if s_.get("name") == "noise"}
+    mult = {}
+    for (_, uid_, _, _) in w.sent:
+        mult[uid_] = mult.get(uid_, 0) + 1
     for (ks, uid, to, delay) in w.sent:
+        if uid in sent_uids:
+            continue        # a further copy of a message that is judged as a whole (mult[uid] equal events)
         sent_uids.add(uid)
+        m_ = mult[uid]
+        if m_ > 1:
+            res.probe("equal_events_sent_several_times")
         if uid in noise:
             res.probe("event_without_handler")
             if handled_by_uid.get(uid):
@@ -309,15 +319,19 @@ def execute(case):
         if fault_step is not None and K >= fault_step:
             # from the failed step on, WHEN an event is handled is not prescribed (the step was cut short) - but an event is
             # still handled at most once, and only by the agent it was sent to
-            if len(got) > 1:
-                res.violate("C11.duplicate", {"uid": uid, "handled": got, "after_handler_fault_in_step": fault_step})
+            if len(got) > m_:
+                res.violate("C11.duplicate", {"uid": uid, "handled": got, "after_handler_fault_in_step": fault_step, "copies_sent": m_})
             elif got and got[0][1] != to:
                 res.violate("C11.reached-another-agent", {"uid": uid, "addressed_to": to, "handled_by": got[0][1], "step": got[0][0]})
             continue
-        if len(got) == 0:
-            res.violate("C11.lost", {"uid": uid, "to": to, "sent_in_step": ks, "delay": delay, "dt": dt, "expected_step": K})
-        elif len(got) > 1:
-            res.violate("C11.duplicate", {"uid": uid, "handled": got})
+        if len(got) < m_:
+            res.violate("C11.lost", {"uid": uid, "to": to, "sent_in_step": ks, "delay": delay, "dt": dt, "expected_step": K,
+                                     "copies_sent": m_, "copies_handled": len(got)})
+        elif len(got) > m_:
+            res.violate("C11.duplicate", {"uid": uid, "handled": got, "copies_sent": m_})
+        elif len({g_ for g_ in got}) > 1:
+            res.violate("C11.wrong-step", {"uid": uid, "sent_in_step": ks, "delay": delay, "dt": dt, "expected_step": K, "handled": got,
+                                           "copies_sent": m_})
         else:
             (kh, ah) = got[0]
             if ah != to:
